@@ -95,6 +95,7 @@ local Lib		libFrArchive		(Archive, String);
 local Lib		libNewHeader		(Lib);
 local Bool		libChkHeader		(Lib);
 local Lib		libPutHeader		(Lib);
+local void		libBadFile		(Lib, Msg);
 
 /* Functions for manipulating library sections. */
 local Buffer		libAddSection		(Lib, LibSectName);
@@ -639,6 +640,14 @@ libStatsIncrement(LibStats libtot, LibStats libincr)
  *
  ****************************************************************************/
 
+/* A library file which cannot be used: say why and stop. */
+local void
+libBadFile(Lib lib, Msg why)
+{
+	if (why) libError(lib, why);
+	comsgFatal(NULL, ALDOR_F_CantOpen, libToStringStatic(lib));
+}
+
 local Lib
 libNewHeader(Lib lib)
 {
@@ -698,8 +707,10 @@ libChkHeader(Lib lib)
 			libError(lib, ALDOR_E_LibBadSectName);
 			return false;
 		}
-		if( libNameIndex(lib, n) != i )
-			bug( "Index[Name[i]] != i" );
+		if( libNameIndex(lib, n) != i ) {
+			libError(lib, ALDOR_E_LibSectDup);
+			return false;
+		}
 	}
 
 #if 0
@@ -768,10 +779,12 @@ libGetHeader(Lib lib)
 	Offset	cc;
 	String	s;
 
-	LIB_SEEK(lib, long0);
+	if (LIB_SEEK(lib, long0) != 0)
+		libBadFile(lib, ALDOR_E_LibSectOffset);
 	cc = libHdrSize;
 	s = strAlloc(cc);
-	FILE_GET_CHARS(lib->file, s, cc);
+	if (fread(s, BYTE_BYTES, cc, lib->file) != cc)
+		libBadFile(lib, ALDOR_E_LibBadSectHdr);
 	buf = bufCapture(s, cc);
 
 	lib->hdr.magic = bufGetHInt(buf);
@@ -787,15 +800,31 @@ libGetHeader(Lib lib)
 		libIndexSect(lib,i).length = bufGetSInt(buf);
 	}
 
-	/* Set up the section indices. */
-	for( i = LIB_INDEX_START; i < LIB_INDEX_LIMIT; i += 1 ) {
+	/* Set up the section indices (only of the sections in use). */
+	for( i = LIB_INDEX_START; i < LIB_INDEX_LIMIT && i < lib->hdr.numSect; i += 1 ) {
 		LibSectName n = libIndexName(lib, i);
 
 		if( n < LIB_NAME_LIMIT )
 			libNameIndex(lib, n) = i;
 	}
 
-	libChkHeader(lib);
+	if( !libChkHeader(lib) )
+		libBadFile(lib, 0);
+
+	/* Every section must lie within the file. */
+	{
+		Offset	end = lib->offset + libHdrSize, size;
+		if( lib->hdr.numSect > 0 ) {
+			i   = lib->hdr.numSect - 1;
+			end = lib->offset + libIndexSect(lib,i).offset
+					  + libIndexSect(lib,i).length;
+		}
+		if( fseek(lib->file, long0, SEEK_END) != 0 )
+			libBadFile(lib, ALDOR_E_LibSectOffset);
+		size = (Offset) ftell(lib->file);
+		if( end > size )
+			libBadFile(lib, ALDOR_E_LibSectOffset);
+	}
 	return lib;
 }
 
@@ -870,7 +899,8 @@ libGetSection(Lib lib, LibSectName name, Bool stat)
 			FTYPE_INTERMED, libSectInfo(name).str);
 
 	/* Seek to the beginning of the section. */
-	LIB_SEEK(lib, libSectOffset(lib, name));
+	if (LIB_SEEK(lib, libSectOffset(lib, name)) != 0)
+		libBadFile(lib, ALDOR_E_LibSectOffset);
 
 	/* Read the number of bytes in the section. */
 	cc = libSectLength(lib, name);
@@ -889,7 +919,8 @@ libGetSection(Lib lib, LibSectName name, Bool stat)
 		buf = bufCapture(s, cc);
 	}
 
-	FILE_GET_CHARS(lib->file, s, cc);
+	if (fread(s, BYTE_BYTES, cc, lib->file) != cc)
+		libBadFile(lib, ALDOR_E_LibSectOffset);
 	bufStart(buf);
 	return buf;
 }
